@@ -70,6 +70,12 @@ def build_op(spec):
         names = [k for k, v in doc["contracts"].items() if v.get("asm")]
         contract = rw.choice(names).split("/")[-1].split(":")[-1]
         flags = flags + ["-c", contract]
+    if not single and contract is None and i % 3 == 0:
+        # second step of the history: the log of the run is replayed, and the replayed document is held to the same rules;
+        # some of these documents contain a block whose analysis is impossible (it has to survive both steps as it is)
+        flags = flags + ["-log"]
+        if rw.random() < 0.5:
+            CT.inject_unanalysable(doc, rw)
     op = C.asm_op(doc, flags, single=single)
     op["fmt"] = "single" if single else "asm"
     op["desc"] = desc
@@ -282,6 +288,28 @@ def check_op(op):
         viols.append({"class": ["reparse", "differs"], "detail": "parser(to_json(out)) != out", "replay": {"op": op}})
     if stats["mixed_sections"] and not summ["samples"]:
         summ["samples"].append({"argv": op["argv"][1:], "src": op["src"], "replaced_blocks": stats["replaced_blocks"]})
+    if "-log" in op["argv"] and not viols:
+        from gsim.checks import c11
+        log = res["files"].get(C.log_path(op))
+        if log is not None:
+            files = dict(op["files"])
+            files[C.log_path(op)] = log.decode()
+            rop = c11.replay_op(op, files)
+            rop["src"], rop["contract"] = op["src"], op.get("contract")
+            st2, res2 = C.run_child(rop)
+            out2 = res2["files"].get(C.output_path(rop)) if st2 == "ok" and res2["exc"] is None else None
+            if out2 is not None:
+                summ["probes"]["log_replayed"] = 1
+                if '"MCOPY"' in op["files"][op["argv"][0]]:
+                    summ["probes"]["replayed_with_unanalysable_block"] = 1
+                try:
+                    vs2, stats2 = compare_docs(rop, in_doc, json.loads(out2.decode()))
+                except ValueError as e:
+                    vs2, stats2 = [(["output-not-json", "from-log"], str(e))], {"sections": 0}
+                summ["evals"] += stats2["sections"] + 1
+                for cls, detail in vs2:
+                    viols.append({"class": cls + ["from-log"], "detail": detail + " (replayed from the log) | argv " + " ".join(op["argv"][1:]),
+                                  "replay": {"op": op}})
     return summ, viols
 
 
